@@ -16,8 +16,8 @@ EXTENDS BklProps, Json, SequencesExt
 
 CONSTANTS MaxLayers, Shard, NShards
 
-VARIABLES doc, depth
-vars == <<doc, depth>>
+VARIABLES doc, depth, base, hist
+vars == <<doc, depth, base, hist>>
 
 AsciiOrder == <<" ","!","\"","#","$","%","&","'","(",")","*","+",",","-",".","/",
   "0","1","2","3","4","5","6","7","8","9",":",";","<","=",">","?","@",
@@ -65,6 +65,9 @@ Fixed == {
   Single("l", L(<<Mk2("$match", Single("a", I("1")), "$value", Single("c", I("3")))>>)),
   Single("l", L(<<Mk2("$match", Single("a", I("1")), "$value", Mk2("$replace", True, "c", I("3")))>>)),
   Single("l", L(<<Mk2("$match", Single("a", I("1")), "c", I("3"))>>)),
+  Single("l", L(<<Mk2("$match", Single("b", S("x")), "nn", Single("deep", I("1")))>>)),
+  Single("l", L(<<Mk2("$match", EmptyMap, "nl", L(<<I("1")>>))>>)),
+  Single("l", L(<<Mk2("$match", Single("b", S("x")), "$value", Mk2("nn", Single("deep", I("1")), "nl", EmptyList))>>)),
   Single("l", L(<<Mk2("$match", Single("a", I("1")), "a", I("1"))>>)),
   Single("l", L(<<Mk2("$match", Single("a", I("1")), "b", S("$delete"))>>)),
   Single("l", L(<<Mk2("$match", Single("b", S("x")), "$value", I("5"))>>)),
@@ -86,7 +89,9 @@ ListPatches(k, q) ==
   {Single(k, L(<<I("9")>>)), Single(k, L(<<S("$replace")>>))} \cup
   UNION {{Single(k, L(<<Single("$delete", q[i])>>)),
           Single(k, L(<<Mk2("$match", q[i], "$value", Alt(q[i]))>>)),
-          Single(k, L(<<Mk2("$match", q[i], "nn", I("1"))>>))} : i \in DOMAIN q}
+          Single(k, L(<<Mk2("$match", q[i], "nn", I("1"))>>)),
+          Single(k, L(<<Mk2("$match", q[i], "nn", Single("more", I("2")))>>)),
+          Single(k, L(<<Mk2("$match", q[i], "nl", L(<<I("2")>>))>>))} : i \in DOMAIN q}
 
 RelPatches(d) ==
   IF IsMap(d) THEN
@@ -99,10 +104,14 @@ RelPatches(d) ==
      \cup {L(<<Mk2("$match", Elems(d)[i], "$value", Alt(Elems(d)[i]))>>) : i \in DOMAIN Elems(d)}
   ELSE {d, Alt(d)}
 
-Patches(d) == Fixed \cup RelPatches(d)
+(* the last level only edits what is there: that is what exposes state shared *)
+(* between positions by an earlier layer                                       *)
+Patches(d) == IF depth < MaxLayers - 1 \/ MaxLayers <= 2 THEN Fixed \cup RelPatches(d) ELSE RelPatches(d)
 
+(* a vector is the whole chain: the harness replays it on ONE live Parser, so *)
+(* that state hidden in the real objects (shared subtrees) takes part         *)
 Emit(d, p, r) ==
-  PrintT("@@V " \o ToJson([dst |-> d, src |-> p, ok |-> r.ok,
+  PrintT("@@V " \o ToJson([base |-> base, hist |-> hist, dst |-> d, src |-> p, ok |-> r.ok,
                            v |-> IF r.ok THEN r.v ELSE Null,
                            err |-> IF r.ok THEN "" ELSE r.err]))
 
@@ -110,7 +119,7 @@ Emit(d, p, r) ==
 BaseSeq == SetToSeq(Bases)
 MyBases == {BaseSeq[i] : i \in {j \in DOMAIN BaseSeq : j % NShards = Shard}}
 
-Init == doc \in MyBases /\ depth = 1
+Init == doc \in MyBases /\ depth = 1 /\ base = doc /\ hist = <<>>
 
 Next ==
   \E p \in Patches(doc) :
@@ -118,7 +127,7 @@ Next ==
     /\ Assert(C01Props(doc, p), <<"C01 theorem fails in the specification", doc, p>>)
     /\ Emit(doc, p, r)
     /\ IF r.ok /\ depth < MaxLayers
-       THEN doc' = r.v /\ depth' = depth + 1
+       THEN doc' = r.v /\ depth' = depth + 1 /\ hist' = Append(hist, p) /\ UNCHANGED base
        ELSE UNCHANGED vars
 
 Spec == Init /\ [][Next]_vars
